@@ -33,7 +33,8 @@
 //!   token-stream-differs                            — any other difference of the main comparison
 //!   R2-cdata-directly-in-integration-point          — finding R2 = F28 (see docs/pkg-ref.md)
 //!   Ftb1-ignored-text-tag-in-template-column-group, Ftb2-frameset-after-select-popped-with-template,
-//!   Ftb4-mglyph-malignmark-in-text-integration-point, Ftb5-frameset-in-integration-point
+//!   Ftb4-mglyph-malignmark-in-text-integration-point, Ftb5-frameset-in-integration-point,
+//!   Ftb7-table-structure-tag-in-integration-point, Ftb8-end-tag-walks-to-foreign-ancestor
 //!                                                   — findings of package tb (docs/pkg-tb.md §5), see `known_shapes`
 //!   strict-fails-on-unfinished-tag                 — finding R1 (tag-scanner mode only, see docs/pkg-ref.md)
 //!   end-tags-not-subsequence, strict-failed-unexpectedly, strict-not-failed, ambiguity-at-wrong-place,
@@ -481,6 +482,12 @@ const FRAMESET_NOT_OK_TAGS: [&str; 24] = [
     "input", "textarea", "xmp", "iframe", "select", "applet", "marquee", "object", "plaintext",
 ];
 const MATH_TEXT_IPS: [&str; 5] = ["mi", "mo", "mn", "ms", "mtext"];
+const TABLE_STRUCTURE_TAGS: [&str; 9] = ["caption", "col", "colgroup", "tbody", "td", "tfoot", "th", "thead", "tr"];
+/// HTML elements "reset the insertion mode appropriately" looks at
+const MODE_ELEMENTS: [&str; 15] = [
+    "td", "th", "tr", "tbody", "thead", "tfoot", "caption", "colgroup", "table", "template", "head", "body", "frameset",
+    "html", "select",
+];
 
 /// last token before the first `</name>` after token `from` (at that end tag both parsers are in step again)
 fn next_end(h: &[HTok], from: usize, name: &str) -> usize {
@@ -507,7 +514,13 @@ fn next_end(h: &[HTok], from: usize, name: &str) -> usize {
 ///  Ftb4: a non-self-closing `mglyph` / `malignmark` start tag whose parent is a MathML text integration point
 ///        (foreign rules in the standard, HTML for lol-html); explains until that element is closed (or, if later,
 ///        until the end tag of a text-mode element opened inside it);
-///  Ftb5: a `frameset` start tag inside an integration point that the tree builder accepts (pops the island).
+///  Ftb5: a `frameset` start tag inside an integration point that the tree builder accepts (pops the island);
+///  Ftb7: a table-structure start tag (caption col colgroup tbody td tfoot th thead tr; `table` where the mode is
+///        in table / in table body / in row) under HTML rules inside an integration point whose island sits in a
+///        table: the nearest mode-giving HTML element on the stack is a table part *below* the island; also the
+///        end-tag form (a table-part end tag inside the integration point whose element is below the island);
+///  Ftb8: an end tag, not the integration point's own, arriving while the integration-point element is the
+///        current node, with a like-named foreign ancestor reachable through foreign elements only.
 fn known_shapes(h: &[HTok]) -> Vec<Shape> {
     let mut stack: Vec<(String, Kind)> = vec![];
     let mut out: Vec<Shape> = vec![];
@@ -534,6 +547,19 @@ fn known_shapes(h: &[HTok]) -> Vec<Shape> {
     }
 
     for (i, t) in h.iter().enumerate() {
+        // The scan stack follows the tags; the tree builder also closes elements implicitly (adoption agency,
+        // `<p>` closed by `<hr>`, …) and ignores some start tags. Where html5ever says that its current node is
+        // foreign while the scan has HTML elements on top of a foreign one, those are gone: drop them.
+        if t.foreign_before
+            && matches!(t.tok, Tok::Start { .. } | Tok::End { .. })
+            && stack.last().is_some_and(|x| x.1 == Kind::Html)
+        {
+            if let Some(p) = stack.iter().rposition(|x| x.1 != Kind::Html) {
+                stack.truncate(p + 1);
+                close_mglyphs(stack.len(), i, &mut mglyphs, &mut out);
+                templates.retain(|(pos, _)| *pos < stack.len());
+            }
+        }
         match &t.tok {
             Tok::Start { name, attrs, sc } => {
                 let n = name.as_str();
@@ -580,6 +606,35 @@ fn known_shapes(h: &[HTok]) -> Vec<Shape> {
                                 last.1 = TMode::ColGroup;
                             } else if !TEMPLATE_HEAD_TAGS.contains(&n) {
                                 last.1 = TMode::Other;
+                            }
+                        }
+                    }
+                }
+
+                // a table-structure start tag inside an integration point of an island that sits in a table:
+                // the rules of the table insertion mode (given by the nearest td th caption tr tbody thead tfoot
+                // colgroup table … below the island) act on it and pop the island
+                if html_rules && (TABLE_STRUCTURE_TAGS.contains(&n) || n == "table") {
+                    let ip_pos = stack.iter().rposition(|x| x.1 == Kind::ForeignIp);
+                    let det = stack.iter().rposition(|x| x.1 == Kind::Html && MODE_ELEMENTS.contains(&x.0.as_str()));
+                    if let (Some(ip_pos), Some(p)) = (ip_pos, det) {
+                        let ctx = stack[p].0.as_str();
+                        let acts = match ctx {
+                            "td" | "th" | "caption" => n != "table",
+                            "tr" | "tbody" | "thead" | "tfoot" | "table" | "colgroup" => true,
+                            _ => false,
+                        };
+                        // directly in the integration point html5ever tells whether the island went
+                        let confirmed = !t.foreign_before || !t.foreign_after;
+                        if p < ip_pos && acts && confirmed {
+                            out.push(Shape { start: i, end: usize::MAX, tag: "Ftb7-table-structure-tag-in-integration-point" });
+                            stack.truncate(if matches!(ctx, "td" | "th" | "caption") { p } else { p + 1 });
+                            close_mglyphs(stack.len(), i, &mut mglyphs, &mut out);
+                            templates.retain(|(pos, _)| *pos < stack.len());
+                        } else if p > ip_pos && n == "table" && acts {
+                            // a table of its own inside the integration point: `<table>` in a table mode closes it
+                            if let Some(q) = stack.iter().rposition(|x| x.1 == Kind::Html && x.0 == "table") {
+                                stack.truncate(q);
                             }
                         }
                     }
@@ -647,6 +702,46 @@ fn known_shapes(h: &[HTok]) -> Vec<Shape> {
                 if let Some(&(pos, TMode::ColGroup)) = templates.last() {
                     if top != Kind::Foreign && stack.len() == pos + 1 && n != "template" {
                         continue; // ignored
+                    }
+                }
+                // The current node is the integration-point element itself and the end tag is not its own: the
+                // rules for foreign content walk down the stack through foreign elements; a like-named foreign
+                // ancestor is popped together with the integration point.
+                if top == Kind::ForeignIp && t.foreign_before && stack.last().is_some_and(|x| x.0 != *name) {
+                    let mut p = stack.len() - 1;
+                    let mut found = None;
+                    while p > 0 {
+                        p -= 1;
+                        if stack[p].1 == Kind::Html {
+                            break;
+                        }
+                        if stack[p].0 == *name {
+                            found = Some(p);
+                            break;
+                        }
+                    }
+                    if let Some(p) = found {
+                        out.push(Shape { start: i, end: usize::MAX, tag: "Ftb8-end-tag-walks-to-foreign-ancestor" });
+                        stack.truncate(p);
+                        close_mglyphs(stack.len(), i, &mut mglyphs, &mut out);
+                        templates.retain(|(pos, _)| *pos < stack.len());
+                        continue;
+                    }
+                }
+                // end-tag form of Ftb7: a table-part end tag whose element is outside the island reaches the rules
+                // of the table insertion mode ("in cell": `</table>` … close the cell) and pops the island
+                if top != Kind::Foreign && ["table", "tbody", "tfoot", "thead", "tr", "td", "th", "caption"].contains(&n) {
+                    let ip_pos = stack.iter().rposition(|x| x.1 == Kind::ForeignIp);
+                    let det = stack.iter().rposition(|x| x.1 == Kind::Html && MODE_ELEMENTS.contains(&x.0.as_str()));
+                    let target = stack.iter().rposition(|x| x.1 == Kind::Html && x.0 == *name);
+                    if let (Some(ip_pos), Some(p), Some(q)) = (ip_pos, det, target) {
+                        let table_mode = matches!(
+                            stack[p].0.as_str(),
+                            "td" | "th" | "caption" | "tr" | "tbody" | "thead" | "tfoot" | "table" | "colgroup"
+                        );
+                        if p < ip_pos && q < ip_pos && table_mode {
+                            out.push(Shape { start: i, end: usize::MAX, tag: "Ftb7-table-structure-tag-in-integration-point" });
+                        }
                     }
                 }
                 if top == Kind::Html
@@ -832,9 +927,34 @@ pub fn run(line: &str) -> String {
                     };
                     let tag = match first_diff(&pl_all, &ph_all) {
                         Some(da) => {
-                            // the divergent entry may be a text run merged across dropped end tags: look at
-                            // every html5ever token up to the start of the next entry
-                            let hidx = ph_all.get(da + 1).map(|t| t.1).unwrap_or(hcut.len());
+                            // the html5ever token at which the two streams part: the first token of the differing
+                            // entry — for two text runs the constituent that holds the first differing byte (runs
+                            // are merged across dropped end tags), and when html5ever's text is a proper prefix
+                            // of lol-html's, the first token of html5ever's next entry
+                            let first_of = |e: usize| ph_all.get(e).map(|t| t.1).unwrap_or(hcut.len());
+                            let hidx = match (pl_all.get(da), ph_all.get(da)) {
+                                (Some((Tok::Text(a), _)), Some((Tok::Text(b), first))) => {
+                                    let cp = a.bytes().zip(b.bytes()).take_while(|(x, y)| x == y).count();
+                                    if cp >= b.len() {
+                                        first_of(da + 1)
+                                    } else {
+                                        let stop = first_of(da + 1);
+                                        let mut acc = 0usize;
+                                        let mut at = *first;
+                                        for j in *first..stop {
+                                            if let Tok::Text(s) = &hcut[j] {
+                                                at = j;
+                                                acc += s.len();
+                                                if acc > cp {
+                                                    break;
+                                                }
+                                            }
+                                        }
+                                        at
+                                    }
+                                }
+                                _ => first_of(da),
+                            };
                             // … and from the token after the last agreeing entry on (end tags are not entries:
                             // text that html5ever reads as an end tag makes the *next* entry differ)
                             let lo = if da > 0 { ph_all[da - 1].1 + 1 } else { 0 };
